@@ -82,7 +82,9 @@ def encode_value(v: Val):
 
 def build(rng, tree: dict, *, ntables: int = 1, seqs=(3, 7), stale_tables: int = 0, free_prob: float = 0.15, table_order: str = "shuffle",
           extra_object_tables: int = 0, alignment: int = 0x1000, trailer_mode: str = "12", version: int = 0x400, replay_entries: int = 0,
-          stale_same_layout: bool = True):
+          stale_same_layout: bool = True, first_table_pages: int = 1, pad_objects: int = 0):
+    # first_table_pages: room reserved for the first object table at 0x2000 (its length is given by its entry count, not by
+    # a fixed page); pad_objects: that many additional unallocated entries, so that a single table can exceed one page
     """Serialise `tree` ({key: Val | dict}) into a HyperVStorage file. -> (bytes, meta)"""
     # ---- assign every entry (node or leaf) to a table; parents may live in other tables
     tables: dict[int, list] = {i + 1: [] for i in range(ntables)}
@@ -148,7 +150,7 @@ def build(rng, tree: dict, *, ntables: int = 1, seqs=(3, 7), stale_tables: int =
         layouts[idx] = (seq_items, size)
     # ---- file layout
     out = bytearray()
-    cursor = 0x3000
+    cursor = 0x2000 + 0x1000 * first_table_pages
     objs = []  # (type, offset, size, allocated)
 
     def alloc(n):
@@ -183,10 +185,10 @@ def build(rng, tree: dict, *, ntables: int = 1, seqs=(3, 7), stale_tables: int =
                 flags = 0
             elif me["payload"] is not None:
                 val = struct.pack("<IQ", len(me["payload"]), file_refs[id(me)])
-                flags = 1
+                flags = 1 | rng.choice([0, 0, 2])  # real files carry a second flag bit (0x02) on most string entries
             else:
                 val = me["inline"]
-                flags = 0
+                flags = rng.choice([0, 0, 2])
             e = entry(me["typ"], flags, ptbl, poff, me["key"].encode("utf-8"), val, trailer=me["trailer"], seq=rng.getrandbits(16))
             assert len(e) == me["size"] and len(blob) == me["offset"], (len(e), me["size"], len(blob), me["offset"])
             blob += e
@@ -220,6 +222,8 @@ def build(rng, tree: dict, *, ntables: int = 1, seqs=(3, 7), stale_tables: int =
     # unallocated / free object entries
     for _ in range(rng.randrange(0, 4)):
         objs.append((rng.choice([O_FREE, 0, O_KEYTABLE, O_FILE]), rng.randrange(0x3000, 0x9000) & ~0xFFF, 0x1000, 0))
+    for _ in range(pad_objects):
+        objs.append((rng.choice([O_FREE, 0]), 0, 0, 0))
     rng.shuffle(objs)
     # extra (acyclic) object tables: move a share of the objects into tables linked from the first one
     first = list(objs)
@@ -237,7 +241,7 @@ def build(rng, tree: dict, *, ntables: int = 1, seqs=(3, 7), stale_tables: int =
         return struct.pack("<II", sig, len(ents)) + b"".join(struct.pack("<BIQIB", t, 0, o, s, a) for t, o, s, a in ents)
 
     ot = objtable(first)
-    assert len(ot) <= 0x1000, "object table does not fit its page"
+    assert len(ot) <= 0x1000 * first_table_pages, "object table does not fit the room reserved for it"
     total = cursor
     out = bytearray(total)
     h1, h2 = header(seqs[0], version, alignment, replay_off), header(seqs[1], version, alignment, replay_off)
